@@ -37,6 +37,8 @@ func execHistory(cfg Config, steps []Step, u *Universe, oo ObsOpts, seed int64) 
 			if err := h.Reopen(); err != nil {
 				return lines, fmt.Errorf("step %d: reopen failed: %v", i, err)
 			}
+		case "clock":
+			setClock(s.T)
 		default:
 			continue
 		}
@@ -186,6 +188,6 @@ func init() { register("C19", runC19) }
 
 func TestC19(t *testing.T) {
 	p := mixedParams{Modes: []int{0}, Segs: []int64{120, 200, 333, 1024}, Buckets: []string{"b", "bb", "c"},
-		MinB: 1, MaxB: 2, MaxSteps: 14, MaxOps: 4, ReopenPct: 15, Structs: true, ReadsInTx: true, Fill: true, NoSPop: true, LongBigSeg: true}
+		MinB: 1, MaxB: 2, MaxSteps: 14, MaxOps: 4, ReopenPct: 15, Structs: true, ReadsInTx: true, Fill: true, NoSPop: true, LongBigSeg: true, ClockPct: 20}
 	runProperty(t, "C19", genMixedCase(p), runC19)
 }
